@@ -138,10 +138,19 @@ def Entry.passesBytesUnchanged : Entry → Bool
   | .externalSigner => Gen.SelfEnc.externalSignerEncryptsCallerBytes
   | .fileCost => Gen.SelfEnc.fileCostEncryptsFileBytes
 
-/-- python.rs `encrypt`: the third-party `self_encryption::encrypt` on the caller's bytes, its `DataMap` returned bare (no
-`pack_data_map`, no `DataMapLevel`): `none` = the crate's error for an input that is too small -/
-def pythonEncrypt (S : SE B DM) (data : B) : Option (DM × List B) :=
-  if Gen.SelfEnc.pythonEncryptBypassesPacking then S.enc data else none
+/-- python.rs `encrypt`, as far as the chunk contents it returns go: with the flag (read from the source: the binding
+calls the THIRD-PARTY `self_encryption::encrypt` itself) the contents of the first-level chunks of the caller's bytes
+and the bare `DataMap` — no `pack_data_map`, no `DataMapLevel` chunk; without it (the binding routed through the repo's
+`encrypt`) the contents of ALL produced chunks. Either way an input the crate refuses is an error. -/
+def pythonEncrypt (S : SE B DM) (max fuel : Nat) (data : B) : Except EncErr (List B) :=
+  if Gen.SelfEnc.pythonEncryptBypassesPacking then
+    match S.enc data with
+    | none => .error .selfEncryption
+    | some (_, cs) => .ok cs
+  else
+    match encrypt S max fuel data with
+    | .error e => .error e
+    | .ok (_, chunks) => .ok (chunks.map (·.value))
 
 /-- What the entry point self-encrypts: the caller's bytes, or — if the source does anything else with them first —
 some unknown function `pre` of them. Everything after `encrypt` (payment, upload, reporting) does not touch the result:
